@@ -261,6 +261,14 @@ OPAQUE = {"x": ["x * x == 3", "x * x + x == 1", "x * x * x == 5", "x * x == 4", 
 LINKS = {("x", "y"): ["UGT(x, ZeroExt(1, y))", "ULT(x, ZeroExt(1, y))", "x != ZeroExt(1, y)", "ZeroExt(1, y) == x + 1", "x + ZeroExt(1, y) == 9"],
          ("x", "z"): ["UGT(x, ZeroExt(1, z))", "ULT(x, ZeroExt(1, z))", "x != ZeroExt(1, z)"],
          ("y", "z"): ["z == y", "UGT(z, y)", "ULT(z, y)", "y + z == 7", "SGE(y ^ z, 0)", "z != y"]}
+# WEAK connections: constraints over two variables (or all three) that exclude few assignments - added to a solver that already
+# knows models of both sides they mostly falsify NONE of them, and no simplifier can drop them
+WEAK = {("x", "y"): ["x != ZeroExt(1, y)", "x + ZeroExt(1, y) != 3", "x ^ ZeroExt(1, y) != 0", "UGE(x | ZeroExt(1, y), 1)"],
+        ("x", "z"): ["x != ZeroExt(1, z)", "x + ZeroExt(1, z) != 3", "x ^ ZeroExt(1, z) != 0", "UGE(x | ZeroExt(1, z), 1)"],
+        ("y", "z"): ["z != y", "y + z != 3", "y ^ z != 0", "UGE(y | z, 1)"]}
+WEAK3 = ["x + ZeroExt(1, y) != ZeroExt(1, z)", "x ^ ZeroExt(1, y) != ZeroExt(1, z)", "ZeroExt(1, y + z) != x", "ZeroExt(1, y ^ z) != x + 1",
+         "UGE(x + ZeroExt(1, y), ZeroExt(1, z))", "ULE(ZeroExt(1, z), x | ZeroExt(1, y))", "Or(x != ZeroExt(1, y), z == 1)",
+         "If(b, x, ZeroExt(1, y)) != ZeroExt(1, z)"]
 
 
 # ----------------------------------------------------------------------------------------------- histories
@@ -693,6 +701,67 @@ def prefix_unsat_then_structure(rng, calpha, ealpha):
     return hist
 
 
+def _ranges(v):
+    """satisfiable constraints over the single variable v (alphabet entries + generated bounds)"""
+    w = 4 if v == "x" else 3
+    return [c for c in CONSTRAINTS if _vars_of(c) == {v}] + ["ULE(%s, %d)" % (v, k) for k in (1, 2, 4, 5)] + \
+        ["UGE(%s, %d)" % (v, (1 << w) - k) for k in (2, 3, 5)] + ["%s != %d" % (v, k) for k in (0, 1)] + ["UGE(%s, 1)" % v]
+
+
+def prefix_exhaust_then_connect(rng):
+    """Two (sometimes three) variables get range constraints of their own and are each ENUMERATED completely (eval with n beyond
+    the number of values; extrema): whoever caches models now knows all of them per variable.  Then ONE constraint connects the
+    variables - mostly a weak one (a disequality, possibly over a third, fresh variable) that falsifies none of the models known
+    and that no simplifier drops; sometimes on a branch.  Then everything is asked again: all values of each variable and of
+    expressions over both, extrema, satisfiability under `v == k`."""
+    vs = ["x", "y", "z"]
+    rng.shuffle(vs)
+    p, q, r = vs
+    pair = tuple(sorted((p, q)))
+    hist = []
+    side = []
+    for v in (p, q) + ((r,) if rng.random() < 0.25 else ()):
+        st = [_add([rng.choice(_ranges(v))])]
+        if rng.random() < 0.4:
+            st.append(_add([rng.choice(_ranges(v))]))
+        ex = [e for e in EXPRS if _vars_of(e) == {v}]
+        for _ in range(rng.choice([1, 1, 2])):
+            k = rng.random()
+            if k < 0.7:
+                st.append({"s": 0, "op": "eval", "e": v if rng.random() < 0.8 else rng.choice(ex), "n": rng.choice([20, 20, 40]), "extra": []})
+            elif k < 0.9:
+                st.append({"s": 0, "op": rng.choice(["min", "max"]), "e": v, "signed": rng.random() < 0.3, "extra": []})
+            else:
+                st.append({"s": 0, "op": "batch_eval", "es": [v], "n": 20, "extra": []})
+        side.append(st)
+    if rng.random() < 0.5:
+        hist = [d for st in side for d in st]
+    else:      # all the adds first, then the questions
+        hist = [d for st in side for d in st if d["op"] == "add"] + [d for st in side for d in st if d["op"] != "add"]
+    t = 0
+    if rng.random() < 0.25:
+        hist.append({"s": 0, "op": "branch"})
+        t = rng.choice([0, 1])
+    k = rng.random()
+    link = rng.choice(WEAK3) if k < 0.45 else rng.choice(WEAK[pair]) if k < 0.85 else rng.choice(LINKS[pair])
+    hist.append(_add([link], t))
+    both = [e for e in EXPRS if {p, q} <= _vars_of(e)] or [p]
+    for _ in range(rng.choice([2, 3, 4])):
+        k = rng.random()
+        v = rng.choice([p, q])
+        if k < 0.55:
+            hist.append({"s": t, "op": "eval", "e": v if rng.random() < 0.8 else rng.choice(both), "n": rng.choice([20, 40]), "extra": []})
+        elif k < 0.7:
+            hist.append({"s": t, "op": rng.choice(["min", "max"]), "e": v, "signed": rng.random() < 0.3, "extra": []})
+        elif k < 0.85:
+            hist.append({"s": t, "op": "satisfiable", "extra": ["%s == %d" % (v, rng.randrange(8))]})
+        else:
+            hist.append({"s": t, "op": "batch_eval", "es": [p, q], "n": 200, "extra": []})
+    if t != 0 or rng.random() < 0.2:
+        hist.append({"s": 1 - t if t else 0, "op": "eval", "e": rng.choice([p, q]), "n": 20, "extra": []})
+    return hist
+
+
 _CONFLICTS = []
 
 
@@ -798,7 +867,7 @@ def prefix_annotated_core(rng, annotate=0.7, ann_kinds=(1, 2, 3)):
 
 
 PREFIXES = {"unchecked-simplify": prefix_unchecked_simplify, "empty-branch": prefix_empty_branch, "early-pickle": prefix_early_pickle,
-            "core-whatif": prefix_core_whatif, "annotated-core": prefix_annotated_core}
+            "core-whatif": prefix_core_whatif, "annotated-core": prefix_annotated_core, "exhaust-then-connect": prefix_exhaust_then_connect}
 
 
 def gen_directed(rng, length, shape=None, **gen):
